@@ -270,6 +270,78 @@ Proof.
   cbn [app] in A1, A2. rewrite A2, A1. reflexivity.
 Qed.
 
+(* ---- client-made registers ------------------------------------------------------------------------------------------------ *)
+Lemma perm_newreg_alt s n mq :
+  (exists v, snd (step s (ONewReg n mq)) = Ok v /\
+             Permutation (all_regs (fst (step s (ONewReg n mq)))) (mkReg (nextReg (nth_node s n)) mq 0 [] [] :: all_regs s))
+  \/ ((forall v, snd (step s (ONewReg n mq)) <> Ok v) /\ fst (step s (ONewReg n mq)) = s).
+Proof.
+  simpl. destruct (Nat.ltb_spec n (length (nodes s))) as [L|L]; [|right; split; [discriminate|reflexivity]].
+  unfold op_newreg. set (nd := nth_node s n).
+  destruct (Nat.leb (maxR nd) (numRegs nd)); [right; split; [discriminate|reflexivity]|].
+  left. cbn [fst snd]. eexists. split; [reflexivity|].
+  set (r0 := mkReg _ _ _ _ _).
+  destruct (perm_node_regs s n (mkNode (virt nd) (sims nd) (regs nd ++ [r0]) (S (numRegs nd)) (S (nextReg nd)) (maxQ nd) (maxR nd))
+              [] [r0] (regs nd)) as (rest & A1 & A2); auto.
+  { cbn [regs]. apply Permutation_app_comm. }
+  simpl in A1, A2. rewrite A2, A1. reflexivity.
+Qed.
+
+Lemma perm_new_inreg_alt s n ow k : inv s ->
+  (exists v r rest, snd (step s (ONewInReg n ow k)) = Ok v /\ In r (regs (nth_node s n)) /\ r_num r = k /\
+      Permutation (all_regs s) (r :: rest) /\
+      Permutation (all_regs (fst (step s (ONewInReg n ow k))))
+        (mkReg (r_num r) (r_max r) (S (r_n r)) (add_qubit (r_n r) (r_tab r)) (r_ids r ++ [next_hid s]) :: rest))
+  \/ ((forall v, snd (step s (ONewInReg n ow k)) <> Ok v) /\ fst (step s (ONewInReg n ow k)) = s).
+Proof.
+  intros H. simpl. destruct (Nat.ltb_spec n (length (nodes s))) as [L|L]; [|right; split; [discriminate|reflexivity]].
+  unfold op_new_inreg. destruct (negb _); [right; split; [discriminate|reflexivity]|].
+  set (nd := nth_node s n).
+  destruct (Nat.leb (maxQ nd) (length (virt nd))); [right; split; [discriminate|reflexivity]|].
+  destruct (find_reg k (regs nd)) as [r|] eqn:EF; [|right; split; [discriminate|reflexivity]].
+  destruct (Nat.leb (r_max r) (r_n r)); [right; split; [discriminate|reflexivity]|].
+  left. cbv zeta. cbn [fst snd]. apply find_reg_some in EF as [Hr Ek].
+  pose proof (ok_rnum _ (inv_nodes s H n)) as RN. fold nd in RN.
+  set (r1 := reg_with_ids (reg_with_tab r (S (r_n r)) (add_qubit (r_n r) (r_tab r))) (r_ids r ++ [next_hid s])).
+  match goal with |- exists v r0 rest, _ /\ _ /\ _ /\ _ /\ Permutation (all_regs (mkNet (upd _ _ ?nd4) _)) _ =>
+    destruct (perm_node_regs s n nd4 [r] [r1] (del_reg (regs nd) (r_num r))) as (rest & A1 & A2); auto end.
+  { cbn [app]. apply perm_del_reg; auto. }
+  { cbn [regs with_virt with_sims with_regs app]. apply perm_set_reg; auto. }
+  eexists. exists r, rest. split; [reflexivity|]. split; [exact Hr|]. split; [exact Ek|]. split; [exact A1|]. exact A2.
+Qed.
+
+(* placement of a qubit created inside a register: in every reachable state a successful remote_new_qubit_inreg changes exactly the
+   named register of the asked node -- |0> appended at its end (engine add_qubit), recorded under the fresh identity -- and no other
+   register of the network; a successful remote_add_register adds one empty register and changes no other *)
+Theorem new_inreg_appends_to_named_register s n ow k v : reachable s -> snd (step s (ONewInReg n ow k)) = Ok v ->
+  ow = n /\ exists r rest, In r (regs (nth_node s n)) /\ r_num r = k /\ r_n r < r_max r /\
+    Permutation (all_regs s) (r :: rest) /\
+    Permutation (all_regs (fst (step s (ONewInReg n ow k))))
+      (mkReg (r_num r) (r_max r) (S (r_n r)) (add_qubit (r_n r) (r_tab r)) (r_ids r ++ [next_hid s]) :: rest).
+Proof.
+  intros R EO. destruct (reachable_ginv s R) as [_ H].
+  destruct (perm_new_inreg_alt s n ow k H) as [(v' & r & rest & _ & Hr & Ek & P1 & P2) | (NO & _)]; [|exfalso; apply (NO v); exact EO].
+  assert (Ln : n < length (nodes s)).
+  { simpl in EO. destruct (Nat.ltb_spec n (length (nodes s))); [auto|discriminate]. }
+  pose proof (find_reg_in k _ r (ok_rnum _ (inv_nodes s H n)) Hr Ek) as EF.
+  destruct (Nat.eq_dec ow n) as [->|NE].
+  - destruct (newinreg_decision s n n k r Ln EF) as (_ & _ & [K _]). destruct (K (ex_intro _ v EO)) as (_ & _ & LT).
+    split; auto. exists r, rest. auto.
+  - exfalso. simpl in EO. destruct (Nat.ltb n (length (nodes s))); [|discriminate]. unfold op_new_inreg in EO.
+    destruct (Nat.eqb_spec ow n); [contradiction|]. discriminate.
+Qed.
+
+Theorem newreg_adds_one_empty_register s n mq v : snd (step s (ONewReg n mq)) = Ok v ->
+  v = nextReg (nth_node s n) /\
+  Permutation (all_regs (fst (step s (ONewReg n mq)))) (mkReg v mq 0 [] [] :: all_regs s).
+Proof.
+  intros EO. destruct (perm_newreg_alt s n mq) as [(v' & EO' & P) | (NO & _)]; [|exfalso; apply (NO v); exact EO].
+  assert (v = nextReg (nth_node s n)).
+  { simpl in EO. destruct (Nat.ltb n (length (nodes s))); [|discriminate]. unfold op_newreg in EO.
+    destruct (Nat.leb _ _); [discriminate|]. inversion EO. reflexivity. }
+  subst v. auto.
+Qed.
+
 (* without the invariant the statement fails: a register already numbered nextReg is overwritten by set_reg *)
 Lemma perm_new_needs_inv :
   exists s n, ~ ((exists v r, snd (step s (ONew n)) = Ok v /\ r_n r = 1 /\ r_tab r = add_qubit 0 [] /\ r_ids r = [next_hid s] /\
